@@ -70,6 +70,9 @@ SLOTS = [
 ]
 
 
+SUBJECT = ['subject']   # the name of the declaration under test (families may rename it for the duration of a case)
+
+
 def build(kind, field, text):
     root = {'k': 'value', 'name': 'ctxRoot', 'oid': ['enterprises', 4242]}
     helper = {'k': 'ot', 'name': 'helperObj', 'syntax': ('simple', 'Integer32'), 'access': ('MAX-ACCESS', 'read-only'),
@@ -80,26 +83,26 @@ def build(kind, field, text):
     oid = ['ctxRoot', 9]
     base = {'descr': 'Plain description.', 'ref': None}
     if kind == 'oi':
-        d = dict(base, k='oi', name='subject', status='current', oid=oid)
+        d = dict(base, k='oi', name=SUBJECT[0], status='current', oid=oid)
     elif kind == 'ot':
-        d = dict(base, k='ot', name='subject', syntax=('simple', 'Integer32'), access=('MAX-ACCESS', 'read-only'),
+        d = dict(base, k='ot', name=SUBJECT[0], syntax=('simple', 'Integer32'), access=('MAX-ACCESS', 'read-only'),
                  status='current', oid=oid)
     elif kind == 'nt':
-        d = dict(base, k='nt', name='subject', objects=['helperObj'], status='current', oid=oid)
+        d = dict(base, k='nt', name=SUBJECT[0], objects=['helperObj'], status='current', oid=oid)
     elif kind == 'trap':
-        d = dict(base, k='trap', name='subject', enterprise=['ctxRoot'], vars=['helperObj'], num=9)
+        d = dict(base, k='trap', name=SUBJECT[0], enterprise=['ctxRoot'], vars=['helperObj'], num=9)
     elif kind == 'mi':
-        d = dict(base, k='mi', name='subject', last='202001010000Z', org='Org.', contact='Contact.',
+        d = dict(base, k='mi', name=SUBJECT[0], last='202001010000Z', org='Org.', contact='Contact.',
                  revs=[('202001010000Z', 'Rev.')], oid=oid)
     elif kind == 'mc':
-        d = dict(base, k='mc', name='subject', status='current', oid=oid,
+        d = dict(base, k='mc', name=SUBJECT[0], status='current', oid=oid,
                  modules=[{'name': None, 'mandatory': ['helperGroup'], 'items': []}])
     elif kind == 'og':
-        d = dict(base, k='og', name='subject', objects=['helperObj'], status='current', oid=oid)
+        d = dict(base, k='og', name=SUBJECT[0], objects=['helperObj'], status='current', oid=oid)
     elif kind == 'ng':
-        d = dict(base, k='ng', name='subject', objects=['helperNotif'], status='current', oid=oid)
+        d = dict(base, k='ng', name=SUBJECT[0], objects=['helperNotif'], status='current', oid=oid)
     elif kind == 'ac':
-        d = dict(base, k='ac', name='subject', release='1.0', status='current', oid=oid)
+        d = dict(base, k='ac', name=SUBJECT[0], release='1.0', status='current', oid=oid)
     elif kind == 'tc':
         d = dict(base, k='tc', name='Subject', display=None, status='current', syntax=('simple', 'OCTET STRING'))
     if field == 'revdescr':
@@ -125,7 +128,7 @@ def run_slot(slot, text, gen_texts, identity, sigbase, source='memory', dialect=
         opts['textFilter'] = lambda symbol, t: t
     vs = []
     outcome = []
-    subject = 'Subject' if kind == 'tc' else 'subject'
+    subject = 'Subject' if kind == 'tc' else SUBJECT[0]
     for backend in ('json', 'pysnmp'):
         parser = env.shared_parser(dialect)
         parser.reset()
@@ -221,6 +224,40 @@ class Slots(object):
         sig = 'C15|%s|%s|%s%s' % (slot[0], tname, 'identity' if case['id'] else 'default',
                                   '|' + case['dialect'] if case.get('dialect') else '')
         return run_slot(slot, text, bool(case['gt']), bool(case['id']), sig, dialect=case.get('dialect', 'smiV2'))
+
+
+class NamedLikeTextKeys(object):
+    name = 'symbols-named-like-text-keys'
+    describe = ('the declaration under test called units, reference, description, organization, contactinfo, displayhint, '
+                'productrelease, lastupdated, revisions (names the intermediate document uses as keys) in the OBJECT-TYPE / '
+                'NOTIFICATION-TYPE / OBJECT-IDENTITY slots x the texts with backslashes and line breaks x genTexts x both filters')
+
+    NAMES = ['units', 'reference', 'description', 'organization', 'contactinfo', 'displayhint', 'productrelease', 'lastupdated',
+             'revisions', 'default']
+    PICK = ('bs-n', 'bs-x', 'bs-trailing', 'multiline', 'apostrophe', 'bs-html-safe')
+
+    def blocks(self, tier):
+        return [{'name': n} for n in self.NAMES]
+
+    def cases(self, block, tier):
+        for i, sl in enumerate(SLOTS):
+            if sl[0] not in ('ot.descr', 'ot.ref', 'ot.units', 'nt.descr', 'oi.descr'):
+                continue
+            for t, (tname, text) in enumerate(TEXTS):
+                if tname in self.PICK:
+                    for gt in (0, 1):
+                        for ident in (0, 1):
+                            yield {'name': block['name'], 'slot': i, 't': t, 'gt': gt, 'id': ident}
+
+    def run_case(self, case):
+        slot = SLOTS[case['slot']]
+        tname, text = TEXTS[case['t']]
+        sig = 'C15|%s|%s|%s|declaration-named-%s' % (slot[0], tname, 'identity' if case['id'] else 'default', case['name'])
+        SUBJECT[0] = case['name']
+        try:
+            return run_slot(slot, text, bool(case['gt']), bool(case['id']), sig)
+        finally:
+            SUBJECT[0] = 'subject'
 
 
 class Pairs(object):
@@ -399,4 +436,4 @@ class ThroughTheWriters(object):
         finally:
             shutil.rmtree(d, ignore_errors=True)
 
-FAMILIES = [Slots(), Pairs(), SwitchHistories(), FromFiles(), _option_histories(), ThroughTheWriters()]
+FAMILIES = [Slots(), Pairs(), SwitchHistories(), FromFiles(), _option_histories(), ThroughTheWriters(), NamedLikeTextKeys()]
